@@ -188,7 +188,8 @@ func hasQuant(ts []*Term) bool {
 func (o *Obligation) Script(specText string, predeclared map[string]bool) (string, bool, []string) {
 	s := NewScript()
 	var asserts []string
-	for _, a := range o.Assumes {
+	assumes := relevantAssumes(o)
+	for _, a := range assumes {
 		asserts = append(asserts, s.Ref(a))
 	}
 	asserts = append(asserts, s.Ref(Not(o.Goal)))
@@ -209,7 +210,7 @@ func (o *Obligation) Script(specText string, predeclared map[string]bool) (strin
 	if len(scal) > 0 {
 		tail += "(get-value (" + strings.Join(scal, " ") + "))\n"
 	}
-	q := hasQuant(append(append([]*Term{}, o.Assumes...), o.Goal))
+	q := hasQuant(append(append([]*Term{}, assumes...), o.Goal))
 	return s.Render("", specText, predeclared, asserts, tail), q, scal
 }
 
@@ -226,7 +227,7 @@ func batchScript(os_ []*Obligation) (string, bool) {
 	var all []*Term
 	for _, o := range os_ {
 		var parts []string
-		for _, a := range o.Assumes {
+		for _, a := range relevantAssumes(o) {
 			parts = append(parts, s.Ref(a))
 			all = append(all, a)
 		}
@@ -255,7 +256,7 @@ func DischargeAll(obls []*Obligation, timeoutS, seed, workers int, dumpDir strin
 		idx := groups[n]
 		q := false
 		for _, i := range idx {
-			if hasQuant(append(append([]*Term{}, obls[i].Assumes...), obls[i].Goal)) {
+			if hasQuant(append(append([]*Term{}, relevantAssumes(obls[i])...), obls[i].Goal)) {
 				q = true
 				break
 			}
